@@ -88,6 +88,10 @@ def gen_program(rng, tier):
             if rej is None:
                 break
             _delete_assignment(tree, rej[0])
+    # a register may be told to keep its value explicitly: r.next |= r
+    for a, _l in walk_assignments(tree):
+        if targets[a['assign']]['kind'] == 'reg' and rng.random() < 0.12:
+            a['val'] = 'self'
     prog = {'targets': targets, 'tree': tree, 'block': rng.choice(['fresh', 'fresh', 'same']),
             'defaults': None, 'mention_only': False, 'fault': None}
     if rng.random() < 0.4:
@@ -110,7 +114,10 @@ def gen_program(rng, tier):
         prog['fault'] = {'kind': 'wide_predicate', 'at': rng.randrange(1, 8),
                          'caught': rng.random() < 0.5}
     elif r < 0.30:
-        prog['fault'] = {'kind': 'nested', 'at': rng.randrange(1, 8)}
+        prog['fault'] = {'kind': 'nested', 'at': rng.randrange(1, 8),
+                         # a nested conditional_assignment(defaults=...) that is refused and caught
+                         # inside the open block; its defaults mention a wire a later program uses
+                         'caught': rng.random() < 0.5}
     return prog
 
 
@@ -347,6 +354,10 @@ def elaborate(prog, pi, ctx, res, share_next=None, shared=None):
 
         def val_of(a):
             v = a['val']
+            if v == 'self':
+                if prog['targets'][a['assign']]['kind'] != 'reg':
+                    return 9                # (only a register can be told to keep its value)
+                return live[a['assign']]
             return ctx.data[int(v[1:])] if isinstance(v, str) else v
 
         def tick():
@@ -365,8 +376,17 @@ def elaborate(prog, pi, ctx, res, share_next=None, shared=None):
                         with ctx.wide:
                             pass
                 if fault['kind'] == 'nested':
-                    with pyrtl.conditional_assignment:
-                        pass
+                    if fault.get('caught'):
+                        mw = pyrtl.WireVector(8, 'g%d_nestmention' % pi)
+                        try:
+                            with pyrtl.conditional_assignment(defaults={mw: 77}):
+                                pass
+                        except pyrtl.PyrtlError:
+                            res.faults.hit('nested_block_with_defaults_refused_and_caught')
+                        ctx.mentioned.append(mw)
+                    else:
+                        with pyrtl.conditional_assignment:
+                            pass
 
         def emit(items):
             for it in items:
@@ -568,6 +588,10 @@ def run(case, res):
                         raise HarnessError('oracle: two active assignments in an accepted program')
 
                     def val(a):
+                        if a['val'] == 'self':
+                            if t['kind'] != 'reg':
+                                return 9
+                            return model[(pi, ti)]          # r.next |= r: keeps what it holds
                         return cyc['d'][int(a['val'][1:])] if isinstance(a['val'], str) else a['val']
                     dflt = None
                     if prog['defaults'] is not None and str(ti) in prog['defaults']:
